@@ -468,6 +468,9 @@ def _filter_seq(it, src, pred_of_elem, py):
     p = pred_of_elem(k.wrap(y))
     it.ex.assume(r.as_set() == SSet(z3.SetIntersect(src.as_set().t, z3.Lambda([y], p)), KSet(k)))
     it.ex.assume(SBool(z3.Length(r.t) <= z3.Length(src.t)))
+    # a filter keeps the length exactly when it drops nothing (what `if len(l) == len(src)` tests after a filtering comprehension)
+    keeps_all = z3.ForAll([y], z3.Implies(z3.IsMember(y, src.as_set().t), p))
+    it.ex.assume(SBool((z3.Length(r.t) == z3.Length(src.t)) == keeps_all))
     return r
 
 
